@@ -479,10 +479,10 @@ mod verif_c16 {
 
   // ---- recording bus (solver side only) ----
   const LOG: usize = 20;
-  static mut EV_KIND: [u8; LOG] = [0; LOG];   // 1 = read, 2 = write
-  static mut EV_ADDR: [u16; LOG] = [0; LOG];
-  static mut EV_VAL: [u8; LOG] = [0; LOG];
-  static mut NEV: usize = 0;
+  static mut EV_KIND: [u8; LOG] = [0xc1; LOG];   // 1 = read, 2 = write
+  static mut EV_ADDR: [u16; LOG] = [0xc2c2; LOG];
+  static mut EV_VAL: [u8; LOG] = [0xc3; LOG];
+  static mut NEV: usize = 0x5a5a_0404_0404;
   extern "sysv64" fn rec_read(_m: *const MemoryAreas, addr: u16) -> u8 {
     let v: u8 = kani::any();
     unsafe { if NEV < LOG { EV_KIND[NEV] = 1; EV_ADDR[NEV] = addr; EV_VAL[NEV] = v; } NEV += 1; }
